@@ -132,6 +132,38 @@ def rs_pre_next_cache():
     static PERF_LAST_PC: Cell<u32> = const { Cell::new(0) };""","""thread_local! {
     static PRE_NEXT_CACHE: std::cell::RefCell<HashMap<u32, u8>> = std::cell::RefCell::new(HashMap::new());
     static PERF_LAST_PC: Cell<u32> = const { Cell::new(0) };""")
+@m
+def pym_disasm_trace_swallows_reads():
+    # round 4: with disasm tracing on, the IMEM listener returns after logging a read (KIL reads no longer consume key events)
+    rep('pce500/emulator.py', """        if self.disasm_trace_enabled and reg_name:
+            self._on_imem_register_access(pc, reg_name, access_type, value)
+""", """        if self.disasm_trace_enabled and reg_name:
+            self._on_imem_register_access(pc, reg_name, access_type, value)
+            if access_type == "read":
+                return
+""")
+@m
+def pym_run_idle_fast_forward():
+    # round 4: PCE500Emulator.run(n) skips idle cycles of a halted machine up to the next timer deadline
+    rep('pce500/emulator.py', """            if not self.step():
+                break
+            count += 1
+""", """            if not self.step():
+                break
+            count += 1
+            if getattr(self.cpu.state, "halted", False) and self._timer_enabled and max_instructions is not None:
+                nxt = min(self._timer_next_mti, self._timer_next_sti)
+                skip = min(max(0, nxt - self.cycle_count - 1), max_instructions - count)
+                self.cycle_count += skip
+                count += skip
+""")
+@m
+def asm_symbols_survive_reuse():
+    # round 4: a re-used Assembler keeps the symbol table of its previous assemble() call
+    rep('sc62015/pysc62015/sc_asm.py', '''calculate section sizes."""
+        self.symbols = {}
+''', '''calculate section sizes."""
+''')
 name=sys.argv[1]; tier='thorough' if 'thorough' in sys.argv else 'quick'
 subprocess.run(['git','-C',REPO,'checkout','--','.'],check=True)
 try:
